@@ -24,15 +24,20 @@ VARIABLES i, nok, bad, nbad, badn, dev, devn
 TLog == ndJsonDeserialize(TraceFile)
 
 CellOf(e) == [ep |-> e.ep, fam |-> e.fam, fmt |-> e.fmt, kind |-> e.kind, inl |-> e.inl, via |-> e.via,
-              skip |-> e.skip, other |-> e.other, depth |-> e.depth, site |-> e.site, ua |-> e.ua]
+              skip |-> e.skip, other |-> e.other, depth |-> e.depth, site |-> e.site, ua |-> e.ua, route |-> e.route]
 GotOf(e) == [k |-> e.got.k, i |-> e.got.i]
 
 WellFormed(e) ==
-    /\ {"id", "ep", "fam", "fmt", "kind", "inl", "via", "skip", "other", "depth", "site", "ua", "got"} \subseteq DOMAIN e
+    /\ {"id", "ep", "fam", "fmt", "kind", "inl", "via", "skip", "other", "depth", "site", "ua", "route", "got"} \subseteq DOMAIN e
     /\ e.fam \in Families
     /\ IsCell(CellOf(e))
 
 DevsMatching(c, g) == {d \in AllDevs : SeenD(c, {d}) # SeenD(c, {}) /\ g = SeenD(c, {d})}
+(* where several deviations predict the same frame (a function of package log that goes through Logger.Output,
+   skip 1: counting a fixed depth and ignoring the skip count both name user frame 0) the one that also shows
+   at skip 0 names the line *)
+PickDev(M) == IF "BridgeFixedDepth" \in M THEN "BridgeFixedDepth"
+              ELSE IF "AdapterFixedDepth" \in M THEN "AdapterFixedDepth" ELSE CHOOSE d \in M : TRUE
 
 TInit == /\ cell \in {CHOOSE c \in CellsOver({CHOOSE ek \in EPKinds : TRUE}) : TRUE} /\ phase = "cell"
          /\ i = 1 /\ nok = 0 /\ bad = <<>> /\ nbad = 0 /\ badn = [n \in {e.name : e \in EPs} |-> 0] /\ dev = <<>> /\ devn = [d \in AllDevs |-> 0]
@@ -51,11 +56,11 @@ TNext ==
             /\ IF g = SeenD(c, {}) /\ g = Want(c)
                THEN nok' = nok + 1 /\ UNCHANGED <<bad, nbad, badn, dev, devn>>
                ELSE IF DevsMatching(c, g) # {}
-               THEN /\ dev' = IF devn[CHOOSE d \in DevsMatching(c, g) : TRUE] < MaxReport
-                              THEN Append(dev, [line |-> i, id |-> e.id, dev |-> CHOOSE d \in DevsMatching(c, g) : TRUE,
+               THEN /\ dev' = IF devn[PickDev(DevsMatching(c, g))] < MaxReport
+                              THEN Append(dev, [line |-> i, id |-> e.id, dev |-> PickDev(DevsMatching(c, g)),
                                                 want |-> Want(c)])
                               ELSE dev
-                    /\ devn' = [devn EXCEPT ![CHOOSE d \in DevsMatching(c, g) : TRUE] = @ + 1]
+                    /\ devn' = [devn EXCEPT ![PickDev(DevsMatching(c, g))] = @ + 1]
                     /\ UNCHANGED <<nok, bad, nbad, badn>>
                ELSE /\ nbad' = nbad + 1
                     /\ badn' = [badn EXCEPT ![c.ep] = @ + 1]
